@@ -812,3 +812,7 @@ PROPS["C10"]["open"] = [
 ]
 
 PROPS["C10"]["level_text"] = "Proof, with the recorded findings of the compressed builder as exact exclusions. Interned builder, fully modelled: all-or-nothing (unconditional, wrapping arithmetic included), a rejected attempt changes nothing later (verdicts, cost(), finalize), contents and signature of finalize for every history, finite-set sub-additivity of interned_vbytes and from it: exact cost <= cost() <= limit in every reachable state, finalize's assert cannot fire, accepted iff true total <= limit (exactly on the limit is accepted); interned_consensus_cost: the cost finalize computes equals the cost run_block_generator2 (model, INTERNED_GENERATOR) charges for the emitted generator when the declared costs are truthful in total (via C04 native_cost_decomposition: byte cost + execution + condition cost); interned_consensus_cost_of_bundles(_reindexed) / compressed_consensus_cost_of_bundles derive that truthfulness, for every history of adds on a fresh builder, from per-bundle mempool acceptance: both cost fields of an accepted run_spendbundle / run_block_generator2 are sums over the spends of a quantity read off the spend's own puzzle run (Lemmas/CostAdditive: nativeLoop_costs, bundleLoop_costs), so execution cost = 20 + sum of the bundles' execution costs and condition cost = sum of the bundles' condition costs for ANY order of the spends (bundles_truthful_total; positional re-indexing for the interned builder's reversed order: bundles_truthful_total_reversed), block_cost = 20 + accepted declared costs without wrap, hence finalize returns and its cost equals the consensus cost of the emitted block (acceptance of the combined block stays a hypothesis). Compressed builder with the incremental serializer as oracle under SerContract (restore undoes the size, size monotone, closing costs <= 2 bytes): contents, signature, no panic and cost <= limit, exact limit, compressed_consensus_cost (returned cost = consensus cost of a generator of the emitted length); the two sentences that fail on the unchanged code (estimate below final cost on a builder whose serializer no attempt has reached; first rejected-after-serialization attempt changes cost()) are stated in full, refuted by kernel-checked witnesses replayed on the real code, and proved with the exact exclusion. Hypotheses where sums occur: limit < 2^62 and >= cost of the empty generator, declared <= 2^63. Correspondence: builder histories through both real builders, every returned generator decoded and re-run through run_block_generator2 (consensus cost compared per case)."
+
+# ---- C04: texts brought up to date with the execution-path theorems ----
+PROPS["C04"]["open"] = ["the CLVM execution costs themselves are clvmr's (external): in the theorems every interpreter run is a universally quantified value; interned_vbytes is a model function (Model/Generator.lean) compared with the code on every INTERNED_GENERATOR case"]
+PROPS["C04"]["level_text"] = PROPS["C04"]["level_text"] + (" (4) the same for every entry point: native_limit_exact / legacy_limit_exact / runSpendbundle_limit_exact (the limit is exact through the byte cost, the generator run, every puzzle run and every spend's conditions) and native_cost_decomposition / runSpendbundle_cost_decomposition (reported cost = byte cost + execution cost + condition cost, exactly). Correspondence: every accepted case is re-run at its own cost and one below; accepted bundles and generators are re-run with the limit at every stage boundary of the countdown.")
